@@ -29,28 +29,59 @@ Proof.
     destruct (Pos.compare_cont Eq m n); reflexivity.
 Qed.
 
-Lemma float_eq_sym a b : float_eq a b = float_eq b a.
-Proof. unfold float_eq. rewrite !FloatAxioms.eqb_spec. unfold SFeqb. apply sfcompare_eq_sym. Qed.
+Lemma feqb_sym a b : PrimFloat.eqb a b = PrimFloat.eqb b a.
+Proof. rewrite !FloatAxioms.eqb_spec. unfold SFeqb. apply sfcompare_eq_sym. Qed.
 
-Lemma float_eq_refl a : is_nan a = false -> float_eq a a = true.
+Lemma feqb_refl a : is_nan a = false -> PrimFloat.eqb a a = true.
 Proof.
-  unfold float_eq, is_nan, view. rewrite FloatAxioms.eqb_spec. unfold SFeqb.
+  unfold is_nan, view. rewrite FloatAxioms.eqb_spec. unfold SFeqb.
   destruct (Prim2SF a) as [s| s| |s m e]; simpl; try discriminate; intros _; try reflexivity.
   - destruct s; reflexivity.
   - destruct s; rewrite Z.compare_refl, Pos.compare_cont_refl; reflexivity.
 Qed.
 
-Lemma float_eq_zeros a b s t :
-  Prim2SF a = S754_zero s -> Prim2SF b = S754_zero t -> float_eq a b = true.
-Proof. intros Ha Hb. unfold float_eq. rewrite FloatAxioms.eqb_spec, Ha, Hb. reflexivity. Qed.
+Lemma feqb_zeros a b s t :
+  Prim2SF a = S754_zero s -> Prim2SF b = S754_zero t -> PrimFloat.eqb a b = true.
+Proof. intros Ha Hb. rewrite FloatAxioms.eqb_spec, Ha, Hb. reflexivity. Qed.
 
-Lemma float_eq_trans a b c : float_eq a b = true -> float_eq b c = true -> float_eq a c = true.
+Lemma feqb_trans a b c :
+  PrimFloat.eqb a b = true -> PrimFloat.eqb b c = true -> PrimFloat.eqb a c = true.
 Proof.
   intros H1 H2.
   destruct (eqb_true_cases _ _ H1) as [->|(s & t & Ha & Hb)]; [exact H2|].
   destruct (eqb_true_cases _ _ H2) as [<-|(s' & t' & Hb' & Hc)]; [exact H1|].
-  eapply float_eq_zeros; eauto.
+  eapply feqb_zeros; eauto.
 Qed.
+
+(* a float prop: IEEE equal, or both NaN *)
+Lemma float_eq_sym a b : float_eq a b = float_eq b a.
+Proof. unfold float_eq. rewrite feqb_sym, (andb_comm (is_nan a)). reflexivity. Qed.
+
+Lemma float_eq_refl a : float_eq a a = true.
+Proof.
+  unfold float_eq. destruct (is_nan a) eqn:E; [apply orb_true_r|].
+  rewrite (feqb_refl a E). reflexivity.
+Qed.
+
+Lemma float_eq_cases a b :
+  float_eq a b = true ->
+  PrimFloat.eqb a b = true \/ (is_nan a = true /\ is_nan b = true).
+Proof.
+  unfold float_eq. rewrite orb_true_iff, andb_true_iff. tauto.
+Qed.
+
+Lemma float_eq_trans a b c : float_eq a b = true -> float_eq b c = true -> float_eq a c = true.
+Proof.
+  intros H1 H2. unfold float_eq.
+  destruct (float_eq_cases _ _ H1) as [E1|[Na Nb]]; destruct (float_eq_cases _ _ H2) as [E2|[Nb' Nc]].
+  - rewrite (feqb_trans _ _ _ E1 E2). reflexivity.
+  - destruct (eqb_true_not_nan _ _ E1) as [_ X]. congruence.
+  - destruct (eqb_true_not_nan _ _ E2) as [X _]. congruence.
+  - rewrite Na, Nc. apply orb_true_r.
+Qed.
+
+Lemma is_nan_sf m : is_nan m = true -> Prim2SF m = S754_nan.
+Proof. unfold is_nan, view. destruct (Prim2SF m); try discriminate; reflexivity. Qed.
 
 Lemma bool_eqb_sym a b : Bool.eqb a b = Bool.eqb b a.
 Proof. destruct a, b; reflexivity. Qed.
@@ -662,11 +693,15 @@ Lemma float_eq_value_ok x e1 e2 p1 p2 :
   float_value_ok x e1 p1 = float_value_ok x e2 p2.
 Proof.
   intros He Hp. unfold float_value_ok.
+  destruct (float_eq_cases _ _ He) as [Ee|[N1 N2]].
+  2:{ rewrite N1, N2, !orb_true_r. reflexivity. }
+  destruct (eqb_true_not_nan _ _ Ee) as [-> ->].
+  destruct (is_nan x); [reflexivity|]. cbn [orb].
   destruct p1 as [p1|], p2 as [p2|]; try discriminate Hp.
   - apply int_eq_iz in Hp. rewrite Hp.
-    destruct (eqb_true_cases _ _ He) as [->|(s & t & Ha & Hb)]; [reflexivity|].
+    destruct (eqb_true_cases _ _ Ee) as [->|(s & t & Ha & Hb)]; [reflexivity|].
     apply (zero_prec_equal e1 e2 s t Ha Hb).
-  - destruct (eqb_true_cases _ _ He) as [->|(s & t & Ha & Hb)]; [reflexivity|].
+  - destruct (eqb_true_cases _ _ Ee) as [->|(s & t & Ha & Hb)]; [reflexivity|].
     apply (zero_isclose e1 e2 s t Ha Hb).
 Qed.
 
@@ -674,8 +709,11 @@ Lemma float_eq_ltb x m1 m2 :
   float_eq m1 m2 = true ->
   PrimFloat.ltb x m1 = PrimFloat.ltb x m2 /\ PrimFloat.ltb m1 x = PrimFloat.ltb m2 x.
 Proof.
-  intros He. destruct (eqb_true_cases _ _ He) as [->|(s & t & Ha & Hb)]; [split; reflexivity|].
-  split; [apply (zero_ltb_r m1 m2 s t Ha Hb) | apply (zero_ltb_l m1 m2 s t Ha Hb)].
+  intros He. destruct (float_eq_cases _ _ He) as [Ee|[N1 N2]].
+  - destruct (eqb_true_cases _ _ Ee) as [->|(s & t & Ha & Hb)]; [split; reflexivity|].
+    split; [apply (zero_ltb_r m1 m2 s t Ha Hb) | apply (zero_ltb_l m1 m2 s t Ha Hb)].
+  - apply is_nan_sf in N1, N2. rewrite !FloatAxioms.ltb_spec, N1, N2. unfold SFltb.
+    split; destruct (Prim2SF x); reflexivity.
 Qed.
 
 (* ================= scalar schemas ================= *)
@@ -1274,10 +1312,10 @@ Proof. destruct a; simpl; [apply Z.eqb_refl | apply eqb_reflx]. Qed.
 
 Lemma o_same_int a b : ointv_same a b = true -> o_eq int_eq a b = true.
 Proof. destruct a, b; simpl; auto using intv_same_int_eq. Qed.
-Lemma o_same_float a b : ofloat_same a b = true -> not_nan a = true -> o_eq float_eq a b = true.
+Lemma o_same_float a b : ofloat_same a b = true -> o_eq float_eq a b = true.
 Proof.
-  destruct a as [x|], b as [y|]; simpl; auto. intros H Hn. apply same_eq in H. subst.
-  apply float_eq_refl. apply negb_true_iff in Hn. exact Hn.
+  destruct a as [x|], b as [y|]; simpl; auto. intros H. apply same_eq in H. subst.
+  apply float_eq_refl.
 Qed.
 Lemma option_eqb_refl {A} (eq : A -> A -> bool) :
   (forall x, eq x x = true) -> forall a, option_eqb eq a a = true.
@@ -1287,18 +1325,18 @@ Lemma date_same_eq v v' : date_eqb v v = true -> value_same v v' = true -> date_
 Proof. destruct v, v'; simpl; try discriminate; auto. Qed.
 
 Definition RB (s : schema) : Prop :=
-  forall s', schema_same s s' = true -> keys_distinct s = true -> no_nan_params s = true ->
+  forall s', schema_same s s' = true -> keys_distinct s = true -> date_params_ok s = true ->
              eqb1 s s' = true.
 
 Notation econd := (fun o : option schema =>
-                     forall x, o = Some x -> keys_distinct x = true /\ no_nan_params x = true).
+                     forall x, o = Some x -> keys_distinct x = true /\ date_params_ok x = true).
 
 Lemma cond_list es ty len mnl mxl :
-  keys_distinct (SList es ty len mnl mxl) = true -> no_nan_params (SList es ty len mnl mxl) = true ->
+  keys_distinct (SList es ty len mnl mxl) = true -> date_params_ok (SList es ty len mnl mxl) = true ->
   (forall l, es = Some l -> Forall econd l) /\
-  (forall t, ty = Some t -> keys_distinct t = true /\ no_nan_params t = true).
+  (forall t, ty = Some t -> keys_distinct t = true /\ date_params_ok t = true).
 Proof.
-  cbn [keys_distinct no_nan_params]. rewrite !andb_true_iff. intros [K1 K2] [N1 N2]. split.
+  cbn [keys_distinct date_params_ok]. rewrite !andb_true_iff. intros [K1 K2] [N1 N2]. split.
   - intros l ->. apply forallb_id_map in K1, N1. rewrite Forall_forall in *.
     intros o Ho x ->. split; [apply (K1 _ Ho) | apply (N1 _ Ho)].
   - intros t ->. auto.
@@ -1315,7 +1353,7 @@ Proof.
 Qed.
 
 Lemma types_rebuild l1 : forall l2,
-  Forall RB l1 -> Forall (fun x => keys_distinct x = true /\ no_nan_params x = true) l1 ->
+  Forall RB l1 -> Forall (fun x => keys_distinct x = true /\ date_params_ok x = true) l1 ->
   types_same l1 l2 = true -> types_eq (ttab eqb1 l1) l2 = true.
 Proof.
   induction l1 as [|x l1 IH]; intros [|y l2] HS HC H; simpl in *; try discriminate; auto.
@@ -1330,7 +1368,7 @@ Definition erel (e1 e2 : dentry) : Prop :=
 
 Lemma entries_rebuild a : forall b,
   on_entries RB a ->
-  Forall (fun e : dentry => forall x, de_schema e = Some x -> keys_distinct x = true /\ no_nan_params x = true) a ->
+  Forall (fun e : dentry => forall x, de_schema e = Some x -> keys_distinct x = true /\ date_params_ok x = true) a ->
   entries_same a b = true -> Forall2 erel a b.
 Proof.
   induction a as [|[[ka sa] oa] a IH]; intros [|[[kb sb] ob] b] HS HC H; simpl in H; try discriminate;
@@ -1395,10 +1433,9 @@ Proof.
   - cbn [schema_same] in H. cbn [eqb1].
     apply andb_true_iff in H as [H H3]. apply andb_true_iff in H as [H1 H2].
     rewrite (o_same_int _ _ H1), (o_same_int _ _ H2), (o_same_int _ _ H3). reflexivity.
-  - cbn [schema_same] in H. cbn [eqb1]. cbn [no_nan_params] in N.
+  - cbn [schema_same] in H. cbn [eqb1].
     apply andb_true_iff in H as [H H4]. apply andb_true_iff in H as [H H3]. apply andb_true_iff in H as [H1 H2].
-    apply andb_true_iff in N as [N N3]. apply andb_true_iff in N as [N1 N2].
-    rewrite (o_same_float _ _ H1 N1), (o_same_float _ _ H2 N2), (o_same_float _ _ H3 N3), (o_same_int _ _ H4).
+    rewrite (o_same_float _ _ H1), (o_same_float _ _ H2), (o_same_float _ _ H3), (o_same_int _ _ H4).
     reflexivity.
   - cbn [schema_same] in H. cbn [eqb1].
     apply andb_true_iff in H as [H H7]. apply andb_true_iff in H as [H H6]. apply andb_true_iff in H as [H H5].
@@ -1420,10 +1457,10 @@ Proof.
   - (* dict *)
     rewrite schema_same_dict in H. cbn [eqb1].
     destruct ks as [a|], ks0 as [b|]; try discriminate H; auto.
-    cbn [keys_distinct no_nan_params] in K, N. apply andb_true_iff in K as [Kd K].
+    cbn [keys_distinct date_params_ok] in K, N. apply andb_true_iff in K as [Kd K].
     apply forallb_id_map in K, N.
     assert (HC : Forall (fun e : dentry => forall x, de_schema e = Some x ->
-                           keys_distinct x = true /\ no_nan_params x = true) a).
+                           keys_distinct x = true /\ date_params_ok x = true) a).
     { rewrite Forall_forall in *. intros e He x Hx. specialize (K e He). specialize (N e He).
       cbv beta in K, N. rewrite Hx in K, N. auto. }
     pose proof (entries_rebuild a b (IHks a eq_refl) HC H) as HR.
@@ -1435,13 +1472,13 @@ Proof.
   - (* any *)
     rewrite schema_same_any in H. cbn [eqb1].
     destruct ts as [l1|], ts0 as [l2|]; try discriminate H; auto. simpl.
-    cbn [keys_distinct no_nan_params] in K, N. apply forallb_id_map in K, N.
+    cbn [keys_distinct date_params_ok] in K, N. apply forallb_id_map in K, N.
     apply (types_rebuild l1 l2 (IHts l1 eq_refl)); [|exact H].
     rewrite Forall_forall in *. intros x Hx. split; [apply (K x Hx) | apply (N x Hx)].
   - exact H.
   - exact H.
   - exact H.
-  - cbn [schema_same] in H. cbn [eqb1]. cbn [no_nan_params] in N.
+  - cbn [schema_same] in H. cbn [eqb1]. cbn [date_params_ok] in N.
     destruct val as [x|], v as [x'|]; simpl in *; try discriminate; auto.
     apply date_same_eq; assumption.
   - cbn [schema_same] in H. cbn [eqb1]. apply andb_true_iff in H as [H1 H2].
@@ -1450,12 +1487,12 @@ Proof.
 Qed.
 
 Lemma rebuild_equal_lemma s s' :
-  schema_same s s' = true -> keys_distinct s = true -> no_nan_params s = true ->
+  schema_same s s' = true -> keys_distinct s = true -> date_params_ok s = true ->
   schema_eqb s s' = true.
 Proof. rewrite schema_eqb_eqb1. apply eqb1_rebuild. Qed.
 
 (* schema_same is reflexive (floats bitwise: NaN included) on schemas whose date parameter is a date *)
-Lemma schema_same_refl : forall s, no_nan_params s = true -> schema_same s s = true.
+Lemma schema_same_refl : forall s, date_params_ok s = true -> schema_same s s = true.
 Proof.
   induction s as [ | val | val mn mx | val mn mx pr | val len mnl mxl al sub pat
                  | es ty len mnl mxl IHes IHty | ks IHks | ts IHts
@@ -1470,7 +1507,7 @@ Proof.
     rewrite (option_eqb_refl (fun x y : pystr * list re => str_eqb (fst x) (fst y))); [reflexivity|].
     intros x. apply str_eqb_refl.
   - rewrite schema_same_list. unfold ointv_same. rewrite !(option_eqb_refl _ intv_same_refl).
-    cbn [no_nan_params] in N. apply andb_true_iff in N as [N1 N2].
+    cbn [date_params_ok] in N. apply andb_true_iff in N as [N1 N2].
     repeat (apply andb_true_iff; split); auto.
     + destruct es as [l|]; auto. specialize (IHes l eq_refl). apply forallb_id_map in N1.
       induction l as [|[x|] l IH]; simpl; auto;
@@ -1479,27 +1516,27 @@ Proof.
       * apply IH; assumption.
     + destruct ty as [t|]; auto.
   - rewrite schema_same_dict. destruct ks as [a|]; auto. specialize (IHks a eq_refl).
-    cbn [no_nan_params] in N. apply forallb_id_map in N.
+    cbn [date_params_ok] in N. apply forallb_id_map in N.
     induction a as [|[[k o] b] a IH]; simpl; auto.
     apply Forall_cons_iff in IHks as [I0 I]. apply Forall_cons_iff in N as [N0 N].
     rewrite key_eqb_refl, eqb_reflx, (IH I N). unfold de_schema in *. simpl in *.
     destruct o as [x|]; auto. rewrite (I0 x eq_refl N0). reflexivity.
   - rewrite schema_same_any. destruct ts as [l|]; auto. specialize (IHts l eq_refl).
-    cbn [no_nan_params] in N. apply forallb_id_map in N.
+    cbn [date_params_ok] in N. apply forallb_id_map in N.
     induction l as [|x l IH]; simpl; auto.
     apply Forall_cons_iff in IHts as [I0 I]. apply Forall_cons_iff in N as [N0 N].
     rewrite (I0 N0), (IH I N). reflexivity.
   - apply option_eqb_refl. intros x. apply bytes_eqb_eq. reflexivity.
   - apply option_eqb_refl. apply N.eqb_refl.
   - apply option_eqb_refl. intros x. rewrite eqb_reflx, Z.eqb_refl. reflexivity.
-  - cbn [schema_same]. destruct val as [v|]; auto. cbn [no_nan_params] in N. simpl.
+  - cbn [schema_same]. destruct val as [v|]; auto. cbn [date_params_ok] in N. simpl.
     destruct v; simpl in *; try discriminate; auto.
   - cbn [schema_same]. unfold ostr_same. rewrite (option_eqb_refl _ str_eqb_refl). apply IHt. exact N.
   - cbn [schema_same]. apply IHt. exact N.
 Qed.
 
 Lemma eq_refl_lemma s :
-  keys_distinct s = true -> no_nan_params s = true -> schema_eqb s s = true.
+  keys_distinct s = true -> date_params_ok s = true -> schema_eqb s s = true.
 Proof. intros K N. apply rebuild_equal_lemma; auto using schema_same_refl. Qed.
 
 (* ================= remaining statements ================= *)
@@ -1534,7 +1571,7 @@ Proof.
     cbn [eqb1 schema_eqb_self]; auto.
   - intros H. apply andb_true_iff in H as [H _]. apply andb_true_iff in H as [H H3].
     apply andb_true_iff in H as [H1 H2].
-    destruct val, mn, mx; simpl in *; unfold float_eq in *; rewrite ?H1, ?H2, ?H3; reflexivity.
+    destruct val, mn, mx; simpl in *; rewrite ?float_eq_refl; reflexivity.
   - destruct ty as [t|]; auto. intros H.
     apply andb_true_iff in H as [H _]. apply andb_true_iff in H as [H _]. apply andb_true_iff in H as [H _].
     apply andb_true_iff in H as [_ H]. simpl in H. apply (IHty t eq_refl H).
@@ -1559,12 +1596,25 @@ Definition ex_list_ell : schema := SList (Some [None]) None None None None.
 Definition ex_list_alias : schema :=
   SList (Some [Some (SAlias (Some [120%N]) (SAny None))]) None None None None.
 
-Lemma eq_refl_refuted_lemma :
-  exists s, keys_distinct s = true /\ wf s = true /\ schema_eqb s s = false.
-Proof. exists (SFloat (Some fnan) None None None). vm_compute. auto. Qed.
+(* NaN parameters (repaired): a float schema declared with NaN equals itself, its rebuild and
+   nothing with another parameter; it validates NaN only *)
+Definition ex_float_nan : schema := SFloat (Some fnan) None None None.
+Lemma nan_params_lemma :
+  schema_eqb ex_float_nan ex_float_nan = true /\ schema_eqb_self ex_float_nan = true /\
+  schema_eqb (SFloat None (Some fnan) None None) (SFloat None (Some fnan) None None) = true /\
+  schema_eqb ex_float_nan (SFloat (Some (mkf false 1%Z 0%Z)) None None None) = false /\
+  schema_eqb (SFloat (Some (mkf false 1%Z 0%Z)) None None None) ex_float_nan = false /\
+  schema_eqb ex_float_nan (SFloat None None None None) = false /\
+  schema_eqb (SFloat None (Some fnan) None None) (SFloat None None (Some fnan) None) = false /\
+  schema_eqb (SList (Some [Some ex_float_nan]) None None None None)
+             (SList (Some [Some ex_float_nan]) None None None None) = true /\
+  schema_eqb (SList None (Some ex_float_nan) None None None)
+             (SList None (Some ex_float_nan) None None None) = true /\
+  verdict ex_float_nan (VFloat fnan) = true /\ verdict ex_float_nan (VFloat (mkf false 1%Z 0%Z)) = false.
+Proof. vm_compute. auto 20. Qed.
 
 Lemma eq_same_verdicts_refuted_lemma :
-  exists s1 s2 v, wf s1 = true /\ wf s2 = true /\ no_nan_params s1 = true /\ no_nan_params s2 = true /\
+  exists s1 s2 v, wf s1 = true /\ wf s2 = true /\ date_params_ok s1 = true /\ date_params_ok s2 = true /\
                   schema_eqb s1 s2 = true /\ verdict s1 v = false /\ verdict s2 v = true.
 Proof. exists ex_list_any, ex_list_ell, (VList []). vm_compute. auto 10. Qed.
 
